@@ -54,7 +54,7 @@ PROBES = ['pop_client', 'pop_server', 'pop_attrs', 'replies_reordered',
           'bad_reply_unknown_id', 'bad_reply_dup_id', 'bad_reply_wrong_type',
           'bad_reply_short_body', 'bad_reply_extra_body',
           'malformed_request', 'unsupported_request', 'errno_mapped',
-          'v3', 'v4', 'v5', 'v6']
+          'v3', 'v4', 'v5', 'v6', 'realpath_without_control_byte']
 
 ERRNOS = ['ENOENT', 'EACCES', 'EEXIST', 'EROFS', 'ENOSPC', 'EDQUOT',
           'ENOTEMPTY', 'ENOTDIR', 'ENAMETOOLONG', 'ELOOP', 'EINVAL',
@@ -79,9 +79,10 @@ def expected_status(name, ver):
 REQ_KINDS = ['stat', 'lstat', 'open', 'opendir', 'realpath', 'mkdir',
              'remove', 'rmdir', 'rename', 'readlink', 'setstat', 'read_bad',
              'close_bad', 'fstat_bad', 'ext_unknown', 'type_unknown',
-             'statvfs', 'limits']
+             'statvfs', 'limits', 'realpath_bare']
 LEGAL = {'stat': {W.ATTRS}, 'lstat': {W.ATTRS}, 'open': {W.HANDLE},
          'opendir': {W.HANDLE}, 'realpath': {W.NAME}, 'readlink': {W.NAME},
+         'realpath_bare': {W.NAME},
          'read_bad': {W.DATA}, 'fstat_bad': {W.ATTRS},
          'statvfs': {W.EXTENDED_REPLY}, 'limits': {W.EXTENDED_REPLY}}
 
@@ -431,6 +432,10 @@ def build_request(kind, path, ver):
     if kind == 'realpath':
         # v6: control byte (SSH_FXP_REALPATH_NO_CHECK)
         return W.REALPATH, p + (bytes([1]) if ver >= 6 else b'')
+    if kind == 'realpath_bare':
+        # v6: the control byte (and the compose paths) are optional;
+        # without it NO_CHECK is assumed (draft 13, 8.9)
+        return W.REALPATH, p
     if kind == 'mkdir':
         return W.MKDIR, p + empty_attrs
     if kind == 'remove':
@@ -568,6 +573,16 @@ def run_server(world, plan):
                     'with status %r, expected %d' %
                     (kind, q['path'][2:], ver, code, want),
                     sig=q['path'][2:])
+        elif kind == 'realpath_bare' and shape == 'valid' and \
+                not q['path'].startswith('e:'):
+            sim.probes['realpath_without_control_byte'] += 1
+
+            if rtype != W.NAME:
+                world.violation(
+                    'legal-request-refused', 'REALPATH with just a path '
+                    '(legal at every version, v%d here) answered with '
+                    'status %r instead of a name' % (ver, code),
+                    sig='realpath')
         elif q.get('sentinel'):
             ok = False
 
